@@ -295,6 +295,13 @@ func (s *Server) serveOne(ctx context.Context, r io.Reader, w io.Writer, shmConn
 			}
 			s.logIPCWriteErr("error-response", req.Method,
 				writeErrorResponse(w, errSchema, pverr, s.serverID, req.RequestID, s.debugErrors))
+			// A refused stream call still has the client's input stream
+			// (ticks / exchange batches) queued behind the request; drain
+			// it as serveStream's init-failure paths do, or it would be
+			// read as the next request. Unary calls have no input stream.
+			if methodTypeString(info.Type) == DispatchMethodStream {
+				drainInputStream(r)
+			}
 			return nil
 		}
 	}
